@@ -1758,7 +1758,10 @@ func vsMQJudge(cs *vsC18Case, ann []vsKV, res vsRes) []vsFinding {
 		switch {
 		case ex.mayRefuse:
 		case ex.emptyClass:
-			bad("empty-class", "empty-class-refused", "effective class annotation (%s form) is \"\" (documented: removes the default class) but the request was refused: %s", form["class"], res.Err)
+			// Observation, not a violation: the documentation says an empty class "removes the default class", the
+			// plugin refuses it. C18 is about which annotation is effective (that is right: the empty
+			// container-specific value was picked); what the plugin does with an empty value is outside it.
+			out = append(out, vsFinding{Check: "obs", Sig: "empty_class_refused"})
 		default:
 			bad("refused", "unexpected-refusal", "all effective annotations are valid but the request was refused: %s", res.Err)
 		}
@@ -1835,6 +1838,13 @@ func vsRunC18(ctx *vsCtx, cs *vsC18Case, idx int, perm *vsRNG) {
 	reported := map[string]bool{}
 	report := func(fs []vsFinding, eval string) {
 		for _, f := range fs {
+			if f.Check == "obs" {
+				if !reported[f.Check+"|"+f.Sig] {
+					reported[f.Check+"|"+f.Sig] = true
+					ctx.Count("observed_" + f.Sig)
+				}
+				continue
+			}
 			if !reported[f.Check+"|"+f.Sig] {
 				reported[f.Check+"|"+f.Sig] = true
 				ctx.Violate(f.Check, f.Sig, cs, "evaluation %s for container %q: %s", eval, cs.Target, f.Msg)
